@@ -439,7 +439,7 @@ func scenario(name string, cases []acceptance, grouped bool) e1lib.Scenario {
 		rt.Log("end")
 	}
 	check := func(r *rt.Result) []rt.Finding {
-		if r.Verdict.Kind != "ok" {
+		if r.Verdict.Kind != "ok" && !dmqCleanerOnly(r, cases) {
 			k := r.Verdict.Kind
 			if k == "panic" {
 				k += ":" + strings.SplitN(r.Verdict.Detail, "\n", 2)[0]
@@ -535,7 +535,36 @@ func scenario(name string, cases []acceptance, grouped bool) e1lib.Scenario {
 		}
 		return out
 	}
-	return e1lib.Scenario{Name: name, Body: body, Check: check, Cfg: rt.Config{Horizon: time.Hour, MaxSteps: 20000000}}
+	return e1lib.Scenario{Name: name, Body: body, Check: check, Cfg: rt.Config{Horizon: 10 * time.Minute, MaxSteps: 20000000}}
+}
+
+// dmqCleanerOnly: a Connection constructed WithDMQ creates a localmessagenotification
+// server whose expiration-cleaner goroutine (protocol/localmessagenotification/server.go,
+// startExpirationCleaner: a one-minute ticker loop that ends only with the server
+// protocol's DoneChan or a client-done message) never ends on a connection whose server
+// side is not started. That goroutine leak is outside C19 (it belongs to C15, "nothing
+// leaks"); here an execution that ends at the virtual-time horizon with nothing but those
+// ticker loops left (one per DMQ connection that completed its handshake) counts as ended.
+func dmqCleanerOnly(r *rt.Result, cases []acceptance) bool {
+	if r.Verdict.Kind != "horizon" || len(r.Verdict.Stuck) == 0 {
+		return false
+	}
+	dmqOK := 0
+	for _, l := range r.Logs {
+		var i int
+		if n, _ := fmt.Sscanf(l, "case %d result ok", &i); n == 1 && strings.Contains(l, " result ok ") && i < len(cases) && !cases[i].cfg.direct && cases[i].cfg.fam == famDMQNtC {
+			dmqOK++
+		}
+	}
+	if len(r.Verdict.Stuck) != dmqOK || r.Logs[len(r.Logs)-1] != "end" {
+		return false
+	}
+	for _, s := range r.Verdict.Stuck {
+		if !strings.Contains(s, "blocked in select at server.go:") {
+			return false
+		}
+	}
+	return true
 }
 
 func tailOf(s []string, n int) []string {
@@ -543,6 +572,18 @@ func tailOf(s []string, n int) []string {
 		return s[len(s)-n:]
 	}
 	return s
+}
+
+// boundary versions of a table: the lowest and highest version of every version-data shape
+func boundary(l []uint16) []uint16 {
+	var out []uint16
+	for i, v := range l {
+		if i == 0 || i == len(l)-1 || shapeOf(l[i-1]) != shapeOf(v) || shapeOf(l[i+1]) != shapeOf(v) ||
+			(familyOf(v) == famNtN && (v == 12 || v == 13)) { // peer-sharing encoding changes at 13
+			out = append(out, v)
+		}
+	}
+	return out
 }
 
 func gen(thorough bool) []e1lib.Scenario {
@@ -558,8 +599,8 @@ func gen(thorough bool) []e1lib.Scenario {
 	}
 	class := func(offered []uint16, v uint16, d datum) string {
 		vc, dc := vclass(offered, v), dclass(v, d)
-		if vc == "known-not-offered" && dc != "undecodable" {
-			dc = "decodable" // a version that was not offered: one class whatever the magic
+		if vc == "known-not-offered" {
+			return vc // a version that was not offered: one class whatever the data
 		}
 		return vc + "|" + dc
 	}
@@ -571,10 +612,15 @@ func gen(thorough bool) []e1lib.Scenario {
 			}
 		}
 	}
-	// seam B: handshake.Client with a one-version table {v0}, every v0 of every table; the
-	// offered versions of one family share a scenario (one root cause = one finding key)
+	// seam B: handshake.Client with a one-version table {v0}, every v0 of every table (quick:
+	// the boundary versions of every table); the offered versions of one family share a
+	// scenario (one root cause = one finding key)
 	for _, f := range []family{famNtN, famNtC, famDMQNtC, famDMQNtN} {
-		for _, v0 := range tb[f] {
+		v0s := tb[f]
+		if !thorough {
+			v0s = boundary(v0s)
+		}
+		for _, v0 := range v0s {
 			for _, v := range vs {
 				for _, d := range ds {
 					add("hsclient|"+famNames[f]+"|"+class([]uint16{v0}, v, d), acceptance{clientCfg{fam: f, direct: true, v0: v0}, v, d})
@@ -585,19 +631,36 @@ func gen(thorough bool) []e1lib.Scenario {
 	var scs []e1lib.Scenario
 	for _, name := range order {
 		s := scenario(name, groups[name], true)
-		s.MinB, s.MaxB, s.Budget = 1, 1, 600*time.Second
+		s.MinB, s.MaxB, s.Budget = 1, 1, 900*time.Second
 		scs = append(scs, s)
 	}
-	// all schedules with <= 1 deviation for one representative acceptance of every class
-	for k, name := range order {
+	// all schedules with <= 1 deviation (thorough: <= 2 where the budget allows) for one
+	// representative acceptance of every class. The classes in which the unchanged tree
+	// violates the property get a schedule scenario only under the node-to-node
+	// configurations (the acceptance does not depend on the schedule; fewer finding keys).
+	for _, name := range order {
 		l := groups[name]
+		clean := strings.HasSuffix(name, "|offered|valid-own-magic") || strings.HasSuffix(name, "|offered|undecodable") || strings.HasSuffix(name, "|unknown-version|any")
+		ntn := strings.HasPrefix(name, "conn|ntn|") || strings.HasPrefix(name, "hsclient|ntn|")
+		if !clean && !ntn {
+			continue
+		}
 		if !thorough && !(strings.HasPrefix(name, "conn|ntn|") || strings.HasSuffix(name, "|offered|valid-own-magic")) {
 			continue
 		}
-		s := scenario("sched|"+name, []acceptance{l[len(l)/2]}, false)
-		s.MinB, s.MaxB, s.Budget = 1, 1, 60*time.Second
-		if thorough && k%5 == 0 {
-			s.MaxB, s.Budget = 2, 120*time.Second
+		rep := l[len(l)/2]
+		if strings.HasSuffix(name, "|known-not-offered") {
+			for _, ac := range l { // a decodable acceptance with the client's magic for a version that was not offered
+				if dclass(ac.v, ac.d) == "valid-own-magic" {
+					rep = ac
+					break
+				}
+			}
+		}
+		s := scenario("sched|"+name, []acceptance{rep}, false)
+		s.MinB, s.MaxB, s.Budget = 1, 1, 120*time.Second
+		if thorough && strings.Contains(name, "|ntn|") {
+			s.MaxB, s.Budget = 2, 240*time.Second
 		}
 		scs = append(scs, s)
 	}
